@@ -32,14 +32,20 @@ type c25Op struct {
 type c25Case struct {
 	M       int64   `json:"max_file_size"`
 	Runtime bool    `json:"set_at_runtime"`
+	// PreGrow (only with Runtime): the file is grown to this many bytes beyond M before the limit is switched on,
+	// so the limit arrives below the size of an existing file (0: the file is empty then)
+	PreGrow int64   `json:"pre_grow,omitempty"`
 	Ops     []c25Op `json:"ops"`
 }
 
 func genC25(t *rapid.T) c25Case {
 	c := c25Case{M: pick(t, "m", int64(1), 2, 100, 4096, 65537, 1<<31, 1<<40), Runtime: rapid.Bool().Draw(t, "runtime")}
+	if c.Runtime && c.M < 1<<31 {
+		c.PreGrow = pick(t, "pregrow", int64(0), 0, 1, 7, 6000)
+	}
 	n := rapid.IntRange(2, 14).Draw(t, "n")
 	for i := 0; i < n; i++ {
-		c.Ops = append(c.Ops, c25Op{Kind: pick(t, "kind", "write", "write", "setsize"), End: rapid.IntRange(0, 8).Draw(t, "end"), Len: pick(t, "len", 0, 1, 2, 3, 100, 5000)})
+		c.Ops = append(c.Ops, c25Op{Kind: pick(t, "kind", "write", "write", "setsize"), End: rapid.IntRange(0, 10).Draw(t, "end"), Len: pick(t, "len", 0, 1, 2, 3, 100, 5000)})
 	}
 	return c
 }
@@ -63,6 +69,10 @@ func c25End(m int64, sel int) uint64 {
 		return 1
 	case 7:
 		return uint64(m + 5000)
+	case 9:
+		return uint64(m + 3)
+	case 10:
+		return uint64(m + 2500)
 	}
 	return 0
 }
@@ -93,6 +103,17 @@ func runC25(tb stat.TB, c c25Case) {
 			return r.Fh
 		}
 		lfh, tfh := setup(lim), setup(twin)
+		if c.Runtime && c.PreGrow > 0 {
+			for _, x := range []struct {
+				s  *session
+				fh []byte
+			}{{lim, lfh}, {twin, tfh}} {
+				if r := x.s.nfs(nfsx.ProcSetattr, nfsx.ArgsSetattr(x.fh, nfsx.Sattr{Size: nfsx.U64p(uint64(c.M + c.PreGrow))}, nil)); r.Status != nfsx.OK {
+					tb.Fatalf("harness: pre-grow: %s", statusName(r.Status))
+				}
+			}
+			nt = true
+		}
 		if c.Runtime {
 			o := lim.e.NFS.GetExportOptions()
 			o.MaxFileSize = c.M
@@ -149,8 +170,8 @@ func runC25(tb stat.TB, c c25Case) {
 				}
 			}
 			post, _ := lv.PeekLstat("/f")
-			if post.Size > c.M {
-				if stat.Violate(tb, id, check, "file-exceeds-max-file-size", c, "%s (%s): the file is now %d bytes, MaxFileSize is %d", what, statusName(lres.Status), post.Size, c.M) {
+			if post.Size > c.M && post.Size != pre.Size {
+				if stat.Violate(tb, id, check, "file-exceeds-max-file-size", c, "%s (%s): the request took the file from %d to %d bytes, MaxFileSize is %d", what, statusName(lres.Status), pre.Size, post.Size, c.M) {
 					return
 				}
 			}
@@ -186,6 +207,9 @@ func runC25(tb stat.TB, c c25Case) {
 	var ls []string
 	if c.Runtime {
 		ls = append(ls, "limit_set_at_runtime")
+	}
+	if c.PreGrow > 0 {
+		ls = append(ls, "limit_set_below_existing_size")
 	}
 	stat.Case(c, nt, ls...)
 }
